@@ -656,7 +656,7 @@ def check_tables(ck, gvh, oracle, tier, corpus, tag="t"):
         cid = "%s%d" % (tag, i)
         g = parsed[cid]
         m = mod.get(cid)
-        if m is None:
+        if m is None or go.get(cid) == "NOTRUN":
             continue
         gc = tab_go_canon(c, g)
         imf = (m["IM"].split("/") + ["", "", "", ""])[:4]
@@ -714,6 +714,8 @@ def check_tables(ck, gvh, oracle, tier, corpus, tag="t"):
         i = len(cases) + j
         cid = "%s%d" % (tag, i)
         g = parsed[cid]
+        if go.get(cid) == "NOTRUN":
+            continue
         f = sort_predicates(c, g)
         res = g.get("res") or [None]
         ck.count("sort:cmp=" + ("".join(ch for ch in c["cmp"] if not ch.isdigit())) + ":" + c["mode"])
@@ -768,8 +770,14 @@ def run_go(gvh, lines, batch=2000, timeout=600):
                 res[l[:i]] = l[i + 1:]
     take(out)
     missing = [l for l in lines if l.split(" ", 1)[0] not in res]
-    if missing:
-        take(vlib.run_lines_resilient(gvh, ["1"], missing, per_case_timeout=20))
+    hangs = 0
+    while missing and hangs < 3:
+        chunk, missing = missing[:200], missing[200:]
+        out = vlib.run_lines_resilient(gvh, ["1"], chunk, per_case_timeout=8)
+        hangs += sum(1 for l in out if l.endswith(" HANG") or " CRASH " in l)
+        take(out)
+    for l in missing:          # after three hangs/crashes the rest is not run (and not counted as evaluated)
+        res[l.split(" ", 1)[0]] = "NOTRUN"
     return res
 
 
@@ -798,6 +806,9 @@ def check_strings(ck, gvh, oracle, cases, tag="s"):
     reported = {}
     for i, (fn, a) in enumerate(cases):
         cid = "%s%d" % (tag, i)
+        if go.get(cid) == "NOTRUN":
+            ck.count("not-run-after-hangs")
+            continue
         g = go_result(go.get(cid, "CRASH missing"))
         m = mod.get(cid)
         if m is None:
